@@ -1,5 +1,6 @@
 import SV.Wire
 import SV.Spec.C20
+import SV.Spec.C20Scalars
 open SV SV.Wire SV.Model.C20 SV.Spec.C20
 
 def decTypeDef (j : Json) : Except String TypeDef := do
@@ -74,6 +75,51 @@ def decSel (j : Json) : Except String (Option Root × List (Option Name)) := do
     return (kind, ← asList (asOpt asChars) sels)
   | _ => .error "expected [kind, [selections]]"
 
+def decNode (j : Json) : Except String ValueNode := do
+  match ← asStr (← field j "k") with
+  | "int" => return .int (← asChars (← field j "t"))
+  | "str" => return .str (← asChars (← field j "t"))
+  | "null" => return .null
+  | _ => return .other
+
+def encNode : ValueNode → Json
+  | .int t => jobj [("k", .str "int"), ("t", jstr t)]
+  | .str t => jobj [("k", .str "str"), ("t", jstr t)]
+  | .null => jobj [("k", .str "null")]
+  | .other => jobj [("k", .str "other")]
+
+/-- integers travel as decimal text -/
+def decIntText (j : Json) : Except String Int := do
+  let t ← asChars j
+  if isIntLiteral t then return intValue t else .error s!"not an integer literal: {String.ofList t}"
+
+def decOptInt (j : Json) : Except String (Option Int) := asOpt decIntText j
+
+def encDrawn : Drawn → Json
+  | .int n => .arr [.str "int", jstr (intText n)]
+  | .date y m d => .arr [.str "date", jnat y, jnat m, jnat d]
+  | .time h mi s us => .arr [.str "time", jnat h, jnat mi, jnat s, jnat us]
+  | .dateTime y m d h mi s us => .arr [.str "dateTime", jnat y, jnat m, jnat d, jnat h, jnat mi, jnat s, jnat us]
+  | .ip4 n => .arr [.str "ip4", jstr (natText n)]
+  | .ip6 n => .arr [.str "ip6", jstr (natText n)]
+  | .uuid n => .arr [.str "uuid", jstr (natText n)]
+
+def decDrawn (j : Json) : Except String Drawn := do
+  match j with
+  | .arr [.str "int", n] => return .int (← decIntText n)
+  | .arr [.str "date", y, m, d] => return .date (← asNat y) (← asNat m) (← asNat d)
+  | .arr [.str "time", h, mi, s, us] => return .time (← asNat h) (← asNat mi) (← asNat s) (← asNat us)
+  | .arr [.str "dateTime", y, m, d, h, mi, s, us] =>
+    return .dateTime (← asNat y) (← asNat m) (← asNat d) (← asNat h) (← asNat mi) (← asNat s) (← asNat us)
+  | .arr [.str "ip4", n] => return .ip4 (← decIntText n).toNat
+  | .arr [.str "ip6", n] => return .ip6 (← decIntText n).toNat
+  | .arr [.str "uuid", n] => return .uuid (← decIntText n).toNat
+  | _ => .error "unknown draw"
+
+def encOptNode : Option ValueNode → Json
+  | none => .null
+  | some v => encNode v
+
 def handle : Handler := fun op a => do
   match op with
   | "select" =>
@@ -122,6 +168,52 @@ def handle : Handler := fun op a => do
     let o ← decOp (← field a "op")
     let d ← asList decSel (← field a "doc")
     return .bool (targets o d)
+  | "scalar_table" =>
+    -- the model's `get_extra_scalar_strategies`: names in order, whether the spec knows the scalar, extreme draws + nodes
+    return .arr (extraScalars.map fun (n, g) => jobj [
+      ("name", jstr n),
+      ("spec", .bool (Scalar.ofName n).isSome),
+      ("boundary", .arr ((boundaryDraws g).map fun d => .arr [encDrawn d, encOptNode (render g d)]))])
+  | "scalar_judge" =>
+    -- spec: is the node an acceptable literal of the scalar; model: can the built-in strategy of that name yield it
+    let n ← asChars (← field a "name")
+    let v ← decNode (← field a "node")
+    let acc : Json := match Scalar.ofName n with
+      | some sc => .bool (acceptable sc v)
+      | none => .null
+    let inModel : Json := match assocGet n extraScalars with
+      | some g => .bool (inSupport g v)
+      | none => .null
+    return jobj [("acceptable", acc), ("inModel", inModel)]
+  | "scalar_render" =>
+    -- model: the node the built-in strategy `name` yields when its base strategy draws `draw`
+    let n ← asChars (← field a "name")
+    let d ← decDrawn (← field a "draw")
+    match assocGet n extraScalars with
+    | some g => return encOptNode (render g d)
+    | none => .error "no such built-in scalar"
+  | "ints" =>
+    -- the family st.integers(lo, hi).map(nodes.Int): node for draw n; is the family member safe for Long; witness
+    let lo ← decOptInt (optField a "lo")
+    let hi ← decOptInt (optField a "hi")
+    let within := intsWithinLong lo hi
+    let node : Json ← match optField a "n" with
+      | .null => pure Json.null
+      | j => do pure (encOptNode (renderInts lo hi (← decIntText j)))
+    return jobj [("node", node), ("safeForLong", .bool within),
+                 ("witness", if within then .null else jstr (intText (longWitness lo hi)))]
+  | "register" =>
+    -- a history of scalar(name, strategy) calls on an empty registry: [[name | null, isStrategy, label]]
+    let calls ← asList (fun j => match j with
+      | .arr [n, ok, l] => do pure ((← asOpt asChars n), (← asBool ok), (← asStr l))
+      | _ => .error "expected [name, isStrategy, label]") (← field a "calls")
+    let final := registerAll ([] : List (Name × String)) calls
+    let results := (calls.foldl (fun (acc : List (Name × String) × List Bool) (c : Option Name × Bool × String) =>
+      match registerScalar acc.1 c.1 c.2.1 c.2.2 with
+      | some r => (r, acc.2 ++ [true])
+      | none => (acc.1, acc.2 ++ [false])) (([] : List (Name × String)), ([] : List Bool))).2
+    return jobj [("registry", .arr (final.map fun (n, l) => .arr [jstr n, .str l])),
+                 ("accepted", .arr (results.map .bool))]
   | _ => .error s!"unknown op {op}"
 
 def main : IO Unit := run handle
